@@ -6,6 +6,9 @@ import (
 	"context"
 	"database/sql"
 
+	aggkittypes "github.com/agglayer/aggkit/types"
+	"github.com/ethereum/go-ethereum/common"
+
 	"github.com/agglayer/aggkit/sync"
 )
 
@@ -44,3 +47,9 @@ func (v *VerifProcessor) Facade() *L1InfoTreeSync { return &L1InfoTreeSync{proce
 
 // VerifProcessorOf returns the processor behind a fully built *L1InfoTreeSync.
 func VerifProcessorOf(s *L1InfoTreeSync) *VerifProcessor { return &VerifProcessor{p: s.processor} }
+
+// VerifBuildAppender returns the real log appenders of the L1 info tree syncer for a client
+// supplied by the verification harness.
+func VerifBuildAppender(client aggkittypes.BaseEthereumClienter, globalExitRoot, rollupManager common.Address) (sync.LogAppenderMap, error) {
+	return buildAppender(client, globalExitRoot, rollupManager, FlagAllowWrongContractsAddrs)
+}
